@@ -207,6 +207,13 @@ class GeminiClient:
             # If TOFU is enabled, verify the certificate
             if self.tofu_db:
                 cert = protocol.get_peer_certificate()
+                if cert is None:
+                    # No certificate, or one that cannot be interpreted: it can be
+                    # neither compared with a pin nor pinned - refuse
+                    raise ConnectionError(
+                        f"Cannot read the certificate presented by "
+                        f"{parsed.hostname}:{parsed.port}; refusing the connection"
+                    )
                 if cert:
                     is_valid, message = self.tofu_db.verify(
                         parsed.hostname, parsed.port, cert
@@ -409,6 +416,13 @@ class GeminiClient:
             # If TOFU is enabled, verify the certificate
             if self.tofu_db:
                 cert = protocol.get_peer_certificate()
+                if cert is None:
+                    # No certificate, or one that cannot be interpreted: it can be
+                    # neither compared with a pin nor pinned - refuse
+                    raise ConnectionError(
+                        f"Cannot read the certificate presented by "
+                        f"{parsed.hostname}:{parsed.port}; refusing the connection"
+                    )
                 if cert:
                     is_valid, message = self.tofu_db.verify(
                         parsed.hostname, parsed.port, cert
